@@ -1,3 +1,4 @@
+\* measured: 359 distinct states, 454 generated, seconds
 SPECIFICATION Spec
 CONSTANTS
   MaxSaves = 2
